@@ -118,6 +118,50 @@ def run(prog: Program, res: Result) -> None:
         else:
             res.fail("C14.R1", file=rel, line=call.lineno, qualname=f"CachingLoaderMixin.{lname}", construct=f"load thunk {norm(thunks[0], 120) if thunks else '<none>'}", message="the wrapped loader is not called with (env, name, globals=globals, context=context, **kwargs)", what=what)
 
+    # cache_key: the namespace is selected by *presence* of the key, never by the truth value of what it maps to
+    ck = mixin.methods["cache_key"]
+    res.analysed_functions.add(ck.fid)
+    what = "cache_key() selects the namespace by key presence (KeyError / `in`), not by truthiness"
+    problems = []
+    for n in ast.walk(ck.node):
+        if isinstance(n, ast.Call) and isinstance(n.func, ast.Attribute) and n.func.attr == "get" and any("namespace_key" in norm(a) for a in n.args):
+            problems.append(f"`{norm(n, 50)}` (a missing key and a falsy namespace become indistinguishable)")
+        test = n.test if isinstance(n, (ast.If, ast.IfExp)) else None
+        if test is not None:
+            for atom in ([test] if not isinstance(test, ast.BoolOp) else test.values):
+                a = atom.operand if isinstance(atom, ast.UnaryOp) and isinstance(atom.op, ast.Not) else atom
+                if isinstance(a, ast.Name) and a.id not in ("context",):
+                    problems.append(f"truth test on `{a.id}`")
+        if isinstance(n, ast.BoolOp) and isinstance(n.op, ast.Or) and any(isinstance(v, (ast.Subscript, ast.Call)) for v in n.values):
+            problems.append(f"`{norm(n, 50)}` falls back on a falsy namespace")
+    subs = [x for x in ast.walk(ck.node) if isinstance(x, ast.Subscript) and "namespace_key" in norm(x.slice)]
+    if not problems and len(subs) >= 2:
+        res.ok("C14.R1", f"{rel}:{ck.node.lineno} CachingLoaderMixin.cache_key", what, "args[key] / context.globals[key] under KeyError handling")
+    else:
+        res.fail("C14.R1", file=rel, line=ck.node.lineno, qualname="CachingLoaderMixin.cache_key", construct="cache_key namespace selection: " + "; ".join(problems or ["no keyed lookups"]), message="cache_key decides on the truth value of the namespace instead of its presence: " + "; ".join(problems or ["no keyed lookups"]) + " - a falsy namespace (0, '', False) is cached under the bare name and served to other tenants", what=what)
+    # args take priority over context globals: the args lookup comes first
+    order = [norm(x.value) for x in sorted(subs, key=lambda x: x.lineno)]
+    what = "cache_key(): loader keyword arguments take priority over context globals"
+    if order[:2] == ["args", "context.globals"]:
+        res.ok("C14.R1", f"{rel}:{ck.node.lineno} CachingLoaderMixin.cache_key", what, "args first")
+    else:
+        res.fail("C14.R1", file=rel, line=ck.node.lineno, qualname="CachingLoaderMixin.cache_key", construct=f"lookup order {order}", message="namespace lookup order changed: a context global can override the explicit loader argument", what=what)
+
+    # freshness of file-backed templates: equality of the recorded and the current mtime
+    n_up = 0
+    for cinfo in prog.subclasses("liquid2.loader.BaseLoader"):
+        for nm, m in cinfo.methods.items():
+            if not nm.startswith("_uptodate"):
+                continue
+            n_up += 1
+            cmps = [c for c in ast.walk(m.node) if isinstance(c, ast.Compare)]
+            what = f"{cinfo.name}.{nm}: fresh iff recorded mtime == current st_mtime"
+            if len(cmps) == 1 and len(cmps[0].ops) == 1 and isinstance(cmps[0].ops[0], ast.Eq) and "st_mtime" in norm(cmps[0]) and "mtime" in norm(cmps[0].left):
+                res.ok("C14.R3", f"{m.file}:{m.node.lineno} {cinfo.name}.{nm}", what, norm(cmps[0]))
+            else:
+                res.fail("C14.R3", file=m.file, line=m.node.lineno, qualname=f"{cinfo.name}.{nm}", construct=f"{nm} comparison {[norm(c) for c in cmps]}", message="the freshness test is not an equality of modification times: a source replaced by an older file (rollback, cp -p, rsync -t) is treated as unchanged and the stale template keeps being served", what=what)
+    res.floor("C14.R3", "_uptodate implementations", n_up, 2)
+
     # ------------------------------------------------------------------ R2 / R3 on the CFG of _check_cache*
     res.rule("C14.R2", "every path of _check_cache* that returns the cached object first rebinds its global_data from the caller's globals, unconditionally")
     res.rule("C14.R3", "a cached object is returned only after the staleness test (auto_reload and not is_up_to_date) came out false; a reloaded template is stored before it is returned")
